@@ -368,4 +368,322 @@ Proof.
       * rewrite U3, Hpl. reflexivity.
     + intros X1 X2. rewrite U4, B3, X2, F1, X1. cbn [negb]. rewrite (Hx X1 X2). reflexivity.
 Qed.
+
+(* ---- dstage_getBlockChecksum ---- *)
+Lemma u_bcc d maxb pn acc0 data l crc :
+  binv skip d maxb dict (acc0 ++ data) (l_s l) -> zlen data <= maxb ->
+  (skip = false -> d_bxxh (l_s l) = data) -> zlen crc = 4 -> bytes_ok crc = true ->
+  Kc pn (fun g => E_B d maxb acc0 data crc g) ->
+  after pn (acc0 ++ data) l (do_blockChecksum_check l crc).
+Proof.
+  intros B Hd Hx Hcl Hbc HK. unfold do_blockChecksum_check, after.
+  assert (Hrd : rd32 crc = le_val crc) by (rewrite rd32_le_val by exact Hbc; rewrite ztake4_self by exact Hcl; reflexivity).
+  rewrite Hrd. assert (Bk := B). destruct B as (B1 & B2 & B3 & B4 & B5 & B6 & B7). rewrite B3.
+  destruct (negb skip && negb (le_val crc =? xxh32 0 (d_bxxh (l_s l)))) eqn:EC; cbn [fst snd]; [exact I|].
+  exists []. ss. rewrite !app_nil_r. split; [reflexivity|]. split; [reflexivity|].
+  eapply C_h with (d := d) (maxb := maxb); [reflexivity | binv_same Bk |].
+  eapply Kc_weaken; [exact HK|]. intros g res E. cbv beta. exists crc, g. split.
+  - replace 4%nat with (length crc) by (unfold zlen in Hcl; lia). apply take_app.
+  - split.
+    + destruct skip; [reflexivity|]. cbn [negb andb orb] in *. rewrite (Hx eq_refl) in EC.
+      apply negb_false_iff in EC. exact EC.
+    + split; [exact Hd|exact E].
+Qed.
+
+Lemma c_getBlockChecksum d maxb p acc0 data t l :
+  d_stage (l_s l) = GetBlockChecksum -> binv skip d maxb dict (acc0 ++ data) (l_s l) -> zlen data <= maxb ->
+  (skip = false -> d_bxxh (l_s l) = data) -> f_bcrc d = true ->
+  pre (d_header (l_s l)) (d_tmpInSize (l_s l)) = t -> bytes_ok t = true -> 0 <= d_tmpInSize (l_s l) < 4 ->
+  Kc p (E_B d maxb acc0 data t) -> bytes_ok (l_src l) = true ->
+  stepr p (acc0 ++ data) l (do_getBlockChecksum l).
+Proof.
+  intros Hst B Hd Hx EB Ht Hbt Hs HK Hb. unfold do_getBlockChecksum.
+  pose proof (zlen_nonneg (l_src l)) as Hl.
+  destruct ((4 <=? zlen (l_src l)) && (d_tmpInSize (l_s l) =? 0)) eqn:E.
+  - apply andb_prop in E. destruct E as [E4 E0]. apply Z.leb_le in E4. apply Z.eqb_eq in E0.
+    assert (Htn : t = []) by (rewrite <- Ht, E0; reflexivity). rewrite Htn in HK.
+    set (crc := ztake 4 (l_src l)).
+    assert (Hcl : zlen crc = 4) by (unfold crc; rewrite zlen_ztake; lia).
+    destruct (bytes_ok_split 4 _ Hb) as [Hb1 _]. fold crc in Hb1.
+    eapply (after_stepr p (acc0 ++ data) l (adv l 4) 4); [lia|exact Hb|reflexivity|reflexivity|]. fold crc.
+    apply (u_bcc d maxb); [exact B|exact Hd|exact Hx|exact Hcl|exact Hb1|].
+    eapply Kc_shift; [exact HK|]. intros g res E. exact E.
+  - clear E. unfold hdr_write. ss.
+    set (n := Z.min (4 - d_tmpInSize (l_s l)) (zlen (l_src l))) in *.
+    assert (Hn : 0 <= n <= zlen (l_src l) /\ n <= 4 - d_tmpInSize (l_s l)) by (unfold n; lia).
+    set (piece := ztake n (l_src l)).
+    assert (Hpl : zlen piece = n) by (unfold piece; rewrite zlen_ztake; lia).
+    destruct (bytes_ok_split n _ Hb) as [Hbp Hbr]. fold piece in Hbp.
+    destruct (stage_facts _ _ piece n t Ht ltac:(lia) Hpl) as (W1 & W2 & W3). rewrite W1.
+    assert (Hbtp : bytes_ok (t ++ piece) = true) by (rewrite bytes_ok_app, Hbt, Hbp; reflexivity).
+    assert (HK' : Kc (p ++ piece) (E_B d maxb acc0 data (t ++ piece))).
+    { eapply Kc_shift; [exact HK|]. intros g res (cb & r2 & T & E). exists cb, r2. rewrite app_assoc. auto. }
+    destruct (d_tmpInSize (l_s l) + n <? 4) eqn:E.
+    + apply Z.ltb_lt in E. apply stepr_stop_stage with (x := piece);
+        [lia | ss; unfold piece; rewrite ztake_zdrop_app; reflexivity | reflexivity | exact Hbp |].
+      eapply C_b with (d := d) (maxb := maxb) (acc0 := acc0) (data := data) (t := t ++ piece);
+        [ss; exact Hst | reflexivity | binv_same B | exact EB | exact Hd | ss; exact Hx | ss; apply pre_full; exact W2 | exact Hbtp | exact HK'].
+    + apply Z.ltb_ge in E.
+      assert (H4 : zlen (t ++ piece) = 4) by lia.
+      rewrite (ztake4_self _ H4).
+      match goal with |- stepr _ _ _ (do_blockChecksum_check ?l1 _) =>
+        eapply (after_stepr p (acc0 ++ data) l l1 n); [lia|exact Hb|reflexivity|reflexivity|] end.
+      fold piece. apply (u_bcc d maxb); [binv_same B|exact Hd|ss; exact Hx|exact H4|exact Hbtp|exact HK'].
+Qed.
+
+(* ---- dstage_flushOut and the decoding of a complete compressed block ---- *)
+Lemma gbinv_linked d maxb ah ax s : gbinv d maxb ah ax s -> linked s = negb (f_indep d).
+Proof. intros (H & _). unfold linked. rewrite H. unfold fi_of_desc; ss. destruct (f_indep d); reflexivity. Qed.
+
+Lemma gbinv_link d maxb ah ax s s' piece :
+  gbinv d maxb ah ax s ->
+  d_fi s' = d_fi s -> d_maxBlock s' = d_maxBlock s -> d_skip s' = d_skip s ->
+  (if linked s then lastn N64 (d_hist s') = lastn N64 (upd_hist (d_hist s) piece) else d_hist s' = d_hist s) ->
+  d_xxh s' = d_xxh s -> d_remaining s' = d_remaining s ->
+  gbinv d maxb (ah ++ piece) ax s'.
+Proof.
+  intros B E1 E2 E3 E4 E5 E6. pose proof (gbinv_linked _ _ _ _ _ B) as HL.
+  destruct B as (B1 & B2 & B3 & B4 & B5 & B6 & B7).
+  unfold gbinv. rewrite E1, E2, E3, E5, E6. rewrite HL in E4.
+  split; [exact B1|]. split; [exact B2|]. split; [exact B3|]. split; [|split; [exact B5|split; [exact B6|exact B7]]].
+  destruct (f_indep d); cbn [negb] in *; [rewrite E4; exact B4|].
+  rewrite E4. unfold upd_hist. fold N64. rewrite lastn_idem. rewrite <- lastn_app_lastn. rewrite B4.
+  rewrite lastn_app_lastn. rewrite app_assoc. reflexivity.
+Qed.
+
+Lemma gbinv_decoded d maxb acc s s' c :
+  binv skip d maxb dict acc s ->
+  d_fi s' = d_fi s -> d_maxBlock s' = d_maxBlock s -> d_skip s' = d_skip s -> d_hist s' = d_hist s ->
+  d_xxh s' = (if negb (fi_ccFlag (d_fi s) =? 0) && negb (d_skip s) then d_xxh s ++ c else d_xxh s) ->
+  d_remaining s' = (if fi_contentSize (d_fi s) =? 0 then d_remaining s else u64 (d_remaining s - zlen c)) ->
+  gbinv d maxb acc (acc ++ c) s'.
+Proof.
+  intros B E1 E2 E3 E4 E5 E6. pose proof (binv_flags _ _ _ _ _ _ B) as (F1 & F2 & F3).
+  destruct B as (B1 & B2 & B3 & B4 & B5 & B6 & B7).
+  unfold gbinv. rewrite E1, E2, E3, E4, E5, E6, F2, F3, B3.
+  split; [exact B1|]. split; [exact B2|]. split; [reflexivity|]. split; [exact B4|]. split; [|split; [|exact B7]].
+  - intros C K. rewrite C, K. cbn [negb andb]. rewrite (B5 C K). reflexivity.
+  - rewrite B6. destruct (f_csize d) as [n|]; [|reflexivity].
+    destruct (n =? 0) eqn:E0; [reflexivity|]. rewrite u64_sub, zlen_app. reflexivity.
+Qed.
+
+Lemma firstn_plus : forall (a n : nat) (l : list byte), firstn (a + n) l = firstn a l ++ firstn n (skipn a l).
+Proof. induction a as [|a IH]; intros n l; [reflexivity|]. destruct l as [|x l]; simpl; [rewrite firstn_nil; reflexivity|]. rewrite IH. reflexivity. Qed.
+Lemma ztake_plus a n (l : list byte) : 0 <= a -> 0 <= n -> ztake (a + n) l = ztake a l ++ ztake n (zdrop a l).
+Proof. intros Ha Hn. unfold ztake, zdrop. rewrite Z2Nat.inj_add by lia. apply firstn_plus. Qed.
+
+Lemma u_flushOut o d maxb pn O acc0 l :
+  d_stage (l_s l) = FlushOut -> O = acc0 ++ ztake (d_tmpOutStart (l_s l)) (d_tmpOut (l_s l)) ->
+  gbinv d maxb O (acc0 ++ d_tmpOut (l_s l)) (l_s l) ->
+  0 <= d_tmpOutStart (l_s l) <= zlen (d_tmpOut (l_s l)) -> zlen (d_tmpOut (l_s l)) <= maxb -> 0 <= l_cap l ->
+  Kc pn (E_header bdec skip d maxb dict (acc0 ++ d_tmpOut (l_s l))) ->
+  after pn O l (do_flushOut o l).
+Proof.
+  intros Hst HO B Hs Hm Hc HK. unfold do_flushOut.
+  set (st := d_tmpOutStart (l_s l)) in *. set (c := d_tmpOut (l_s l)) in *.
+  (* after a piece of k bytes has been flushed *)
+  assert (Main : forall k (l2 : lst),
+     0 <= k -> st + k <= zlen c -> l_src l2 = l_src l -> l_out l2 = l_out l ++ ztake k (zdrop st c) ->
+     d_stage (l_s l2) = FlushOut -> d_tmpOut (l_s l2) = c -> d_tmpOutStart (l_s l2) = st + k ->
+     gbinv d maxb (O ++ ztake k (zdrop st c)) (acc0 ++ c) (l_s l2) ->
+     after pn O l (if d_tmpOutStart (l_s l2) =? zlen (d_tmpOut (l_s l2))
+                   then (with_s l2 (set_stage (l_s l2) GetBlockHeader), Continue)
+                   else (l2, Stop FD_BHSize))).
+  { intros k l2 Hk Hk2 S1 S2 S3 S4 S5 Bn. unfold after. rewrite S4, S5.
+    set (piece := ztake k (zdrop st c)) in *.
+    assert (HO' : O ++ piece = acc0 ++ ztake (st + k) c).
+    { rewrite HO, <- app_assoc. unfold piece. rewrite ztake_plus by lia. reflexivity. }
+    destruct (st + k =? zlen c) eqn:E; cbn [fst snd].
+    - apply Z.eqb_eq in E. exists piece. ss. split; [exact S1|]. split; [exact S2|].
+      assert (HO2 : O ++ piece = acc0 ++ c) by (rewrite HO', ztake_all by lia; reflexivity).
+      eapply C_h with (d := d) (maxb := maxb).
+      + reflexivity.
+      + rewrite HO2 in Bn. apply gbinv_binv in Bn. rewrite HO2. binv_same Bn.
+      + rewrite HO2. exact HK.
+    - exists piece. split; [exact S1|]. split; [exact S2|]. unfold FD_BHSize. cbn [Z.eqb].
+      eapply C_f with (d := d) (maxb := maxb) (acc0 := acc0).
+      + exact S3.
+      + rewrite S5, S4. exact HO'.
+      + rewrite S4. exact Bn.
+      + rewrite S4. exact Hm.
+      + rewrite S4. exact HK. }
+  destruct (o_dstnull o) eqn:Hnull.
+  - pose proof (Main 0 l) as M. cbv beta in M.
+    assert (Z0 : ztake 0 (zdrop st c) = []) by reflexivity. rewrite Z0, !app_nil_r in M.
+    apply M; auto; try lia.
+  - set (k := Z.min (zlen c - st) (l_cap l)).
+    assert (Hk : 0 <= k /\ st + k <= zlen c /\ k <= l_cap l) by (unfold k; lia).
+    set (piece := ztake k (zdrop st c)).
+    pose proof (upd_link_core (l_s l) piece) as L. pose proof (upd_link_fields (l_s l) piece) as (V1 & V2 & V3 & V4).
+    set (s2 := upd_link (l_s l) piece) in *.
+    destruct L as (L1 & L2 & L3 & L4 & L5 & L6 & L7 & L8 & L9 & L10 & L11).
+    pose proof (Main k (emit (with_s l (set_tmpOutStart s2 (d_tmpOutStart s2 + k))) piece k)) as M. cbv beta in M. ss.
+    apply M; auto; try lia; try congruence.
+    eapply (gbinv_link d maxb O (acc0 ++ c) (l_s l) _ piece B); ss; auto.
+    apply hist_eq_case. exact V1.
+Qed.
+
+Lemma stepr_after_with_s pn O l s r : after pn O (with_s l s) r -> after pn O l r.
+Proof. unfold after. destruct (snd r); auto. Qed.
+
+Lemma after_stepr0 p O l r : bytes_ok (l_src l) = true -> after p O l r -> stepr p O l r.
+Proof.
+  intros Hb A. apply (after_stepr p O l l 0); [pose proof (zlen_nonneg (l_src l)); lia|exact Hb|reflexivity|reflexivity|].
+  assert (Z0 : ztake 0 (l_src l) = []) by reflexivity. rewrite Z0, app_nil_r. exact A.
+Qed.
+
+Lemma c_flushOut o d maxb p O acc0 l :
+  d_stage (l_s l) = FlushOut -> O = acc0 ++ ztake (d_tmpOutStart (l_s l)) (d_tmpOut (l_s l)) ->
+  gbinv d maxb O (acc0 ++ d_tmpOut (l_s l)) (l_s l) ->
+  0 <= d_tmpOutStart (l_s l) <= zlen (d_tmpOut (l_s l)) -> zlen (d_tmpOut (l_s l)) <= maxb -> 0 <= l_cap l ->
+  Kc p (E_header bdec skip d maxb dict (acc0 ++ d_tmpOut (l_s l))) -> bytes_ok (l_src l) = true ->
+  stepr p O l (do_flushOut o l).
+Proof. intros. apply after_stepr0; [assumption|]. eapply u_flushOut; eauto. Qed.
+
+Lemma u_cblock o d maxb pn O l sel n :
+  binv skip d maxb dict O (l_s l) -> bytes_ok sel = true ->
+  d_tmpInTarget (l_s l) = n + crc4 (f_bcrc d) -> 0 <= n <= maxb -> zlen sel = n + crc4 (f_bcrc d) -> 0 <= l_cap l ->
+  Kc pn (fun g => X_comp bdec skip d maxb dict O n (sel ++ g)) ->
+  after pn O l (do_cblock bdec o l sel).
+Proof.
+  intros B Hbs Ht Hn Hsl Hc HK. unfold do_cblock.
+  pose proof (binv_flags _ _ _ _ _ _ B) as (F1 & F2 & F3). pose proof (binv_linked _ _ _ _ _ _ B) as HL.
+  assert (Bk := B). destruct B as (B1 & B2 & B3 & B4 & B5 & B6 & B7).
+  set (data := ztake n sel).
+  assert (Hsl' : n <= zlen sel) by (unfold crc4 in Hsl; destruct (f_bcrc d); lia).
+  assert (Hsl'' : (Z.to_nat n - length sel)%nat = 0%nat) by (unfold zlen in Hsl'; lia).
+  assert (Hdl : zlen data = n) by (unfold data; rewrite zlen_ztake; lia).
+  assert (Tk : forall rest, take (Z.to_nat n) (sel ++ rest) = Some (data, zdrop n sel ++ rest)).
+  { intro rest. rewrite (take_ztake n) by (rewrite zlen_app; pose proof (zlen_nonneg rest); lia).
+    unfold data, ztake, zdrop. f_equal. f_equal.
+    - rewrite firstn_app, Hsl''. simpl. apply app_nil_r.
+    - rewrite skipn_app, Hsl''. reflexivity. }
+  rewrite F1.
+  assert (CRC : forall s0 crcok,
+     (if negb (f_bcrc d) then (l_s l, true)
+      else (set_tmpInTarget (l_s l) (d_tmpInTarget (l_s l) - 4),
+            rd32 (zdrop (d_tmpInTarget (set_tmpInTarget (l_s l) (d_tmpInTarget (l_s l) - 4))) sel) =?
+            xxh32 0 (ztake (d_tmpInTarget (set_tmpInTarget (l_s l) (d_tmpInTarget (l_s l) - 4))) sel))) = (s0, crcok) ->
+     d_tmpInTarget s0 = n /\ binv skip d maxb dict O s0 /\
+     (crcok = true -> forall c rest res, E_after bdec skip d maxb dict O c rest res ->
+                      E_bcrc bdec skip d maxb dict O data c (zdrop n sel ++ rest) res)).
+  { intros s0 crcok H. destruct (f_bcrc d) eqn:EB; cbn [negb] in H; injection H as <- <-.
+    - ss. unfold crc4 in *. rewrite Ht. split; [lia|]. split.
+      + binv_same Bk.
+      + replace (n + 4 - 4) with n by lia. intros C c rest res E. unfold E_bcrc. rewrite EB.
+        set (cb := zdrop n sel) in *.
+        assert (Hcb : zlen cb = 4) by (unfold cb; rewrite zlen_zdrop; lia).
+        destruct (bytes_ok_split n _ Hbs) as [_ Hbc]. fold cb in Hbc.
+        exists cb, rest. split.
+        * replace 4%nat with (length cb) by (unfold zlen in Hcb; lia). apply take_app.
+        * split; [|exact E]. apply Z.eqb_eq in C. rewrite rd32_le_val in C by exact Hbc.
+          rewrite ztake4_self in C by exact Hcb. rewrite C. fold data. rewrite Z.eqb_refl. apply orb_true_r.
+    - unfold crc4 in *. split; [lia|]. split; [exact Bk|]. intros _ c rest res E. unfold E_bcrc. rewrite EB.
+      replace (zdrop n sel) with (@nil byte); [exact E|].
+      unfold zdrop. symmetry. apply skipn_all2. unfold zlen in Hsl. lia. }
+  match goal with |- context [let '(_, _) := ?x in _] => destruct x as [s0 crcok] eqn:EX end.
+  destruct (CRC s0 crcok eq_refl) as (T0 & B0 & C0). clear CRC EX.
+  destruct (negb crcok) eqn:EN; [exact I|].
+  apply negb_false_iff in EN. specialize (C0 EN).
+  assert (HL0 : linked s0 = negb (f_indep d)) by (eapply binv_linked; exact B0).
+  rewrite T0, HL0. fold data.
+  assert (Hh : (if negb (f_indep d) then lastn (Z.to_nat FD_64KB) (d_hist s0) else d_hist s0) = spec_hist d dict O).
+  { destruct B0 as (_ & _ & _ & X & _). unfold spec_hist. fold N64. destruct (f_indep d); cbn [negb]; [exact X|].
+    rewrite X, N64_eq. reflexivity. }
+  rewrite Hh.
+  destruct (bdec (spec_hist d dict O) data) as [c|] eqn:ED; [|exact I].
+  assert (Bd := B0). destruct B0 as (D1 & D2 & D3 & D4 & D5 & D6 & D7). rewrite D2.
+  destruct (zlen c <=? maxb) eqn:EL; [|exact I]. apply Z.leb_le in EL.
+  pose proof (upd_decoded_core s0 c) as C. pose proof (upd_decoded_fields s0 c) as (U1 & U2 & U3).
+  set (s1 := upd_decoded s0 c) in *.
+  destruct C as (C1 & C2 & C3 & C4 & C5 & C6 & C7 & C8 & C9 & C10 & C11).
+  assert (HKc : Kc pn (E_header bdec skip d maxb dict (O ++ c))).
+  { eapply Kc_weaken; [exact HK|]. intros g res E. cbv beta. exists data, (zdrop n sel ++ g), c.
+    split; [apply Tk|]. split; [exact ED|]. apply C0. split; [exact EL|exact E]. }
+  pose proof (zlen_nonneg c) as Hc0.
+  rewrite C3, D2.
+  destruct (maxb <=? l_cap l) eqn:EC.
+  - (* straight into dst *)
+    pose proof (upd_link_core s1 c) as L. pose proof (upd_link_fields s1 c) as (V1 & V2 & V3 & V4).
+    set (s2 := upd_link s1 c) in *.
+    destruct L as (L1 & L2 & L3 & L4 & L5 & L6 & L7 & L8 & L9 & L10 & L11).
+    unfold after. cbn [fst snd]. exists c. ss. split; [reflexivity|]. split; [reflexivity|].
+    eapply C_h with (d := d) (maxb := maxb); [reflexivity| |exact HKc].
+    eapply (binv_append skip d maxb dict O s0 _ c Bd); ss; try congruence.
+    apply hist_eq_case. rewrite V1. unfold linked. rewrite C1, U1. reflexivity.
+  - (* through tmpOut *)
+    match goal with |- after _ _ _ (do_flushOut _ (with_s _ ?S)) => apply (stepr_after_with_s pn O l S) end.
+    eapply (u_flushOut o d maxb pn O O); ss.
+    + reflexivity.
+    + assert (Z0 : ztake 0 c = []) by reflexivity. rewrite Z0, app_nil_r. reflexivity.
+    + eapply (gbinv_decoded d maxb O s0 _ c Bd); ss; congruence.
+    + lia.
+    + exact EL.
+    + exact Hc.
+    + exact HKc.
+Qed.
+
+Lemma stepr_continue_same p O l l1 :
+  l_src l1 = l_src l -> l_out l1 = l_out l -> CInv p O (l_s l1) -> stepr p O l (l1, Continue).
+Proof.
+  intros A B C. unfold stepr. cbn [fst snd]. exists [], []. rewrite !app_nil_r. rewrite A, B. auto.
+Qed.
+
+Lemma c_storeCBlock o d maxb p O l n t :
+  d_stage (l_s l) = StoreCBlock -> binv skip d maxb dict O (l_s l) ->
+  d_tmpInTarget (l_s l) = n + crc4 (f_bcrc d) -> 0 <= n <= maxb ->
+  pre (d_tmpIn (l_s l)) (d_tmpInSize (l_s l)) = t -> bytes_ok t = true ->
+  0 <= d_tmpInSize (l_s l) < d_tmpInTarget (l_s l) -> 0 <= l_cap l ->
+  Kc p (fun g => X_comp bdec skip d maxb dict O n (t ++ g)) -> bytes_ok (l_src l) = true ->
+  stepr p O l (do_storeCBlock bdec o l).
+Proof.
+  intros Hst B Htg Hn Ht Hbt Hs Hc HK Hb. unfold do_storeCBlock, tmpin_write. ss.
+  pose proof (zlen_nonneg (l_src l)) as Hl.
+  set (tg := d_tmpInTarget (l_s l)) in *.
+  set (k := Z.min (tg - d_tmpInSize (l_s l)) (zlen (l_src l))) in *.
+  assert (Hk : 0 <= k <= zlen (l_src l) /\ k <= tg - d_tmpInSize (l_s l)) by (unfold k; lia).
+  set (piece := ztake k (l_src l)).
+  assert (Hpl : zlen piece = k) by (unfold piece; rewrite zlen_ztake; lia).
+  destruct (bytes_ok_split k _ Hb) as [Hbp Hbr]. fold piece in Hbp.
+  destruct (stage_facts _ _ piece k t Ht ltac:(lia) Hpl) as (W1 & W2 & W3). rewrite W1.
+  assert (Hbtp : bytes_ok (t ++ piece) = true) by (rewrite bytes_ok_app, Hbt, Hbp; reflexivity).
+  assert (HK' : Kc (p ++ piece) (fun g => X_comp bdec skip d maxb dict O n ((t ++ piece) ++ g))).
+  { eapply Kc_shift; [exact HK|]. intros g res E. cbv beta. rewrite app_assoc. exact E. }
+  destruct (d_tmpInSize (l_s l) + k <? tg) eqn:E.
+  - apply Z.ltb_lt in E. apply stepr_stop_stage with (x := piece).
+    + unfold bcsize, FD_BFSize, FD_BHSize.
+      match goal with |- context [if ?c then _ else _] => destruct c end; lia.
+    + ss. unfold piece. rewrite ztake_zdrop_app. reflexivity.
+    + reflexivity.
+    + exact Hbp.
+    + eapply C_s with (d := d) (maxb := maxb) (n := n) (t := t ++ piece);
+        [ss; exact Hst | binv_same B | ss; exact Htg | exact Hn | ss; apply pre_full; exact W2 | exact Hbtp | exact HK'].
+  - apply Z.ltb_ge in E.
+    assert (Hfull : zlen (t ++ piece) = tg) by lia.
+    rewrite (ztake_all tg (t ++ piece)) by lia.
+    match goal with |- stepr _ _ _ (do_cblock _ _ ?l1 _) =>
+      eapply (after_stepr p O l l1 k); [lia|exact Hb|reflexivity|reflexivity|] end.
+    fold piece. apply (u_cblock o d maxb _ O _ _ n); [binv_same B|exact Hbtp|ss; exact Htg|exact Hn|lia|ss; exact Hc|exact HK'].
+Qed.
+
+Lemma c_getCBlock o d maxb p O l n :
+  d_stage (l_s l) = GetCBlock -> binv skip d maxb dict O (l_s l) ->
+  d_tmpInTarget (l_s l) = n + crc4 (f_bcrc d) -> 0 <= n <= maxb -> 0 <= l_cap l ->
+  Kc p (X_comp bdec skip d maxb dict O n) -> bytes_ok (l_src l) = true ->
+  stepr p O l (do_getCBlock bdec o l).
+Proof.
+  intros Hst B Htg Hn Hc HK Hb. unfold do_getCBlock.
+  pose proof (zlen_nonneg (l_src l)) as Hl.
+  assert (Hcr : 0 <= crc4 (f_bcrc d)) by (unfold crc4; destruct (f_bcrc d); lia).
+  destruct (zlen (l_src l) <? d_tmpInTarget (l_s l)) eqn:E.
+  - apply stepr_continue_same; [reflexivity|reflexivity|].
+    eapply C_s with (d := d) (maxb := maxb) (n := n) (t := []);
+      [reflexivity | binv_same B | ss; exact Htg | exact Hn | reflexivity | reflexivity | exact HK].
+  - apply Z.ltb_ge in E.
+    set (tg := d_tmpInTarget (l_s l)) in *.
+    destruct (bytes_ok_split tg _ Hb) as [Hb1 _].
+    eapply (after_stepr p O l (adv l tg) tg); [lia|exact Hb|reflexivity|reflexivity|].
+    apply (u_cblock o d maxb _ O _ _ n); [exact B|exact Hb1|exact Htg|exact Hn|rewrite zlen_ztake; lia|exact Hc|].
+    eapply Kc_shift; [exact HK|]. auto.
+Qed.
 End Chunk.
